@@ -368,6 +368,10 @@ fn scaled_slice(ctx: &Ctx) {
         sels.push(one(vec![Simple::AttrExists("k".repeat(n))]));
         sels.push(chain(vec![vec![ty(&"x".repeat(n))], vec![ty("a")]], vec![Comb::Child]));
     }
+    // more than 64 and more than 96 match ids, many of them matching the same element
+    for n in 0..72usize {
+        sels.push(one(vec![Simple::Class(format!("c{}", (n * 7) % 100))]));
+    }
     let strs: Vec<String> = sels.iter().map(|s| s.render()).collect();
     let p = make_cfg(&strs).unwrap_or_else(|e| panic!("scaled selector group does not parse: {e}"));
     par_for(docs.len(), 1, |di| {
@@ -400,7 +404,7 @@ fn scaled_slice(ctx: &Ctx) {
         }
     });
     if !ctx.capped.load(std::sync::atomic::Ordering::Relaxed) {
-        ctx.level_done(&format!("{} scaled documents (sibling counts, nesting depths, attribute / class counts, value and name lengths around 12, 32, 64, 128) x one program of {} selectors x {{one write, cut inside every start tag}}", docs.len(), sels.len()));
+        ctx.level_done(&format!("{} scaled documents (sibling counts, nesting depths, attribute / class counts, value and name lengths around 12, 32, 64, 128) x one program of {} selectors (match ids in three word classes of the match set) x {{one write, cut inside every start tag}}", docs.len(), sels.len()));
     }
 }
 
